@@ -3,6 +3,7 @@
 package main
 
 import (
+	"path/filepath"
 	"bytes"
 	"encoding/binary"
 	"encoding/json"
@@ -122,6 +123,10 @@ func newC03World(c *ev.Ctx, root string) bfs.World {
 		x.label, root = root[i+len("/label="):], root[:i]
 	}
 	x.e = newEnv(envOpt{KeyDir: "pub", LogName: "alice", Validity: 43200, KeyIDs: map[string]string{"default": "slot"}, Behaviour: "honest", AgentHasKey: true})
+	// the same person also has the account "bob" on the server, with the same key registered
+	if line, err := os.ReadFile(filepath.Join(x.e.dir, "alice.pub")); err == nil {
+		os.WriteFile(filepath.Join(x.e.dir, "bob.pub"), line, 0o644)
+	}
 	var mask int
 	fmt.Sscanf(root, "%d", &mask)
 	for i, f := range c03Foreign {
@@ -192,6 +197,8 @@ func (x *c03World) Enabled() []bfs.Op {
 		}
 	}
 	ops = append(ops, bfs.Op{Name: "ok", Arg: "1/none", Arg2: "1"}, bfs.Op{Name: "ok", Arg: "2/short-empty", Arg2: "315360000"})
+	// a successful run for ANOTHER login name of the same person against the same agent: still one generation
+	ops = append(ops, bfs.Op{Name: "ok-bob"})
 	// the CA answers successfully with nothing usable: no certificate at all, or plain public keys only
 	ops = append(ops, bfs.Op{Name: "ok-empty"}, bfs.Op{Name: "ok-plainkeys"})
 	// the CA grants less than requested to some certificates of one reply (every order of short and full validities)
@@ -335,7 +342,11 @@ func (x *c03World) Apply(op bfs.Op) (fs []bfs.Finding) {
 	if x.multi {
 		hh = &multiHandler{Handler: h}
 	}
-	err, esc := e.run(defaultParams("alice"), []gensign.Handler{hh})
+	login := "alice"
+	if op.Name == "ok-bob" {
+		login = "bob"
+	}
+	err, esc := e.run(defaultParams(login), []gensign.Handler{hh})
 	if esc != "" {
 		add("panic-escaped:"+ev.PanicSite(esc), esc)
 		return
@@ -460,7 +471,7 @@ func (x *c03World) Apply(op bfs.Op) (fs []bfs.Finding) {
 
 func checkC03(c *ev.Ctx) {
 	defer cleanupScratch()
-	c.Rule("E1 BFS over sequences of real gensign.Run executions against one agent: transitions = success with the CA returning 1..3 certificates (or, successfully, none / only plain public keys) x comment lists {none, shorter with empty strings, longer} and validity {1 s, 12 h, 10 y}, incl. replies in which the CA grants 10 min to the first / middle / last certificate only; failure at authentication, at private-key insertion, missing key slot, CA error, agent failure at list / certificate add (thorough: remove, CA panic); roots = all 32 subsets of {plain key, foreign certificate, 3 near-miss comments} over a plain key store, plus 6 roots with the documented key_label option set, plus 6 behind the real shim agent (virtual clock; fault-free and pre-signing-failure transitions), plus 3 in which the real handler's key carries two CSRs (extra transition: the CA signs the first and fails the second); state = canonical identity multiset (class, generation age, comment, lifetime). non-trivial = successful run, or failed run with certificates at stake; distinct by (state, transition)")
+	c.Rule("E1 BFS over sequences of real gensign.Run executions against one agent: transitions = success with the CA returning 1..3 certificates (also for a second login name of the same person) (or, successfully, none / only plain public keys) x comment lists {none, shorter with empty strings, longer} and validity {1 s, 12 h, 10 y}, incl. replies in which the CA grants 10 min to the first / middle / last certificate only; failure at authentication, at private-key insertion, missing key slot, CA error, agent failure at list / certificate add (thorough: remove, CA panic); roots = all 32 subsets of {plain key, foreign certificate, 3 near-miss comments} over a plain key store, plus 6 roots with the documented key_label option set, plus 6 behind the real shim agent (virtual clock; fault-free and pre-signing-failure transitions), plus 3 in which the real handler's key carries two CSRs (extra transition: the CA signs the first and fails the second); state = canonical identity multiset (class, generation age, comment, lifetime). non-trivial = successful run, or failed run with certificates at stake; distinct by (state, transition)")
 	c.Assume("identities whose comment contains the handler name inside a longer word are don't-care", "lifetime constraints are read from the add-identity requests as parsed by x/crypto's agent server")
 	var roots []string
 	for m := 0; m < 32; m++ {
